@@ -49,12 +49,18 @@ def s_surface(draw):
         lon2 = cg.wrap_lon(lon1 + do)
     if cpr.haversine_m(lat1, lon1, lat2, lon2) > 0.2 * cpr.NM:
         lat2, lon2 = lat1, lon1
+    corner = None
+    if draw(gen.uint(0, 9)) == 0:
+        # both frames at one position whose CPR fields are round binary numbers for one of the parities; movement / track fields on a corner
+        lat1, lon1 = cg.round_position(draw, draw(st.integers(0, 1)), True)
+        lat2, lon2 = lat1, lon1
+        corner = draw(st.sampled_from([0, 0, 0x7FFF]))
     t0, t1 = draw(cg.TIMES)
     rd = draw(st.one_of(gen.ufloat(0, 44.5), gen.ufloat(0, 44.5), st.sampled_from([0.0, 44.5, 12.0])))
     rb = draw(st.one_of(gen.ufloat(0, 360), gen.ufloat(0, 360), st.sampled_from([0.0, 90.0, 180.0, 270.0])))
     return {"lat0": lat1, "lon0": lon1, "lat1": lat2, "lon1": lon2, "t0": t0, "t1": t1, "rdist": rd, "rbrg": rb,
             "tc0": draw(st.integers(5, 8)), "tc1": draw(st.integers(5, 8)), "noref": draw(gen.uint(0, 29)) == 0, "as_datetime": draw(st.sampled_from([0, 0, 0, 1, 2, 3, 4, 4])), "hc": draw(gen.hexcase), "int_receiver": draw(gen.uint(0, 5)) == 0,
-            "ctx_bits0": draw(gen.ubits(15)), "ctx_bits1": draw(gen.ubits(15)), "ctx_icao": draw(gen.addresses),
+            "ctx_bits0": draw(gen.ubits(15)) if corner is None else corner, "ctx_bits1": draw(gen.ubits(15)) if corner is None else corner, "ctx_icao": draw(gen.addresses),
             "df": draw(st.sampled_from([17, 17, 18]))}
 
 
